@@ -22,6 +22,9 @@ CLAIMED["C03"] = dict(tech="property-based testing (rapid) against a harness ref
 CLAIMED["C15"] = dict(tech="property-based testing (rapid) with encoding/json as independent decoder, plus injected output-stream failures",
       text="Generated-input search: schema + data with every leaf type and hostile strings x writer configuration (Pretty, EnumAsIds, QualifyNamespace) x start selection (root, container, list, list entry, leaf). The output must be exactly one RFC 8259 value for encoding/json, have arrays for lists/leaf-lists, objects for containers, [null] for empty, scalars that decode to the stored values, correct (un)qualified names, and pretty == compact modulo insignificant whitespace. A stream failing after k bytes must produce an error.",
       note="Single-module schemas (qualification where the defining module changes is not exercised yet). Below a non-root start both qualified and unqualified names are accepted.", ref="7 C15")
+CLAIMED["C19"] = dict(tech="property-based testing (rapid): round trip through both XML writers, the standard library's encoding/xml as independent parser, and the library's reader; metamorphic sibling interleaving",
+      text="Generated-input search: schema + data with every leaf type and text containing markup characters, quotes, ]]>, leading/trailing/inner white space and non-ASCII, written by WriteXMLDoc (pretty and compact) and WriteXML. The output must be one well-formed document with a single root for encoding/xml, decode to the data, and read back through ReadXMLDoc into the same tree (order of entries and leaf-list elements kept). A harness-written document whose sibling elements are interleaved must read as the same tree.",
+      note="Characters XML 1.0 cannot carry (C0 controls except tab/LF/CR) are outside the domain. Single-namespace schemas so far.", ref="7 C19")
 NOT_YET = {}
 props = [json.loads(l) for l in open(os.path.join(ROOT, "properties.jsonl"))]
 checks, na = [], []
